@@ -22,6 +22,7 @@ E2 (history BFS): state = contents of the process-wide memo tables (+ every othe
 """
 from __future__ import annotations
 
+import collections
 import contextlib
 import copy
 import enum
@@ -41,6 +42,14 @@ PROPERTY = "C13"
 LEVEL = "model_checking"
 
 FUNCS = ["finite", "poly", "nonpoly", "insenc", "right", "top"]
+SEED = 0              # rotates the order of the calls inside the E1 loops, never the set of calls
+
+
+def rot(seq):
+    seq = list(seq)
+    k = SEED % len(seq) if seq else 0
+    return seq[k:] + seq[:k]
+
 ORDERED = ["list", "tuple", "gen", "iter"]
 UNORDERED = ["set", "frozenset", "Basis"]
 MODS = ["permuta.permutils.finite", "permuta.permutils.polynomial",
@@ -122,10 +131,15 @@ def call(fn, kind, ps):
     return got
 
 
+def differs(got, exp):
+    """The answer is compared by truth value; an exception (reported as a string) always differs."""
+    return isinstance(got, str) or bool(got) != bool(exp)
+
+
 def check_call(part, sub, fn, kind, seq, exp_v, extra=None):
     got = call(fn, kind, [perm_obj(p) for p in seq])
     exp = expected(fn, exp_v)
-    if got is not exp:    # must be the bool itself (True/False), not merely truthy
+    if differs(got, exp):
         case = {"seq": [list(p) for p in seq], "container": kind, "fn": fn}
         if extra:
             case.update(extra)
@@ -137,7 +151,11 @@ def check_call(part, sub, fn, kind, seq, exp_v, extra=None):
 def impl_verdicts(basis):
     """(finite, poly, right, top) as answered by the implementation for list(sorted basis)."""
     ps = [perm_obj(p) for p in basis]
-    return tuple(call(fn, "list", ps) for fn in ("finite", "poly", "right", "top"))
+    out = []
+    for fn in ("finite", "poly", "right", "top"):
+        got = call(fn, "list", ps)
+        out.append(got if isinstance(got, str) else bool(got))
+    return tuple(out)
 
 
 # --------------------------------------------------------------------------------------------
@@ -155,10 +173,10 @@ def check_type_case(part, p, kind, X, pos):
     # verdict vector of the whole sequence, but only the observed function is compared
     fn = KIND_FN[kind]
     got = call(fn, "list", [perm_obj(q) for q in seq])
-    ok = got is member
+    ok = not differs(got, member)
     if ok and kind == "poly":
         got2 = call("nonpoly", "iter", [perm_obj(q) for q in seq])
-        if got2 is not (not member):
+        if differs(got2, not member):
             ok, got, fn = False, got2, "nonpoly"
     if not ok:
         part.violation("types", {"perm": list(p), "class": X, "kind": kind, "pos": pos},
@@ -176,8 +194,8 @@ def shard_types(shard):
                     check_type_case(part, p, kind, X, pos)
                     part.add(1, 0)
                 part.add(0, 1 if n >= 3 else 0)
-    if hi > lo:
-        p = R.perms(n)[lo]
+    if hi > lo and n >= 5 and lo == 0:
+        p = R.perms(n)[hi - 1]
         part.sample({"sub": "types", "perm": p, "classes": [c for c in F.CLASSES
                                                             if F.types_cached(p) & F.BIT[c]]}, cap=1)
     return part
@@ -206,13 +224,13 @@ def check_base_full(part, S):
     v = F.verdicts(S)
     n = 0
     for seq in F.sequences(S):
-        for kind in ORDERED:
-            for fn in FUNCS:
+        for kind in rot(ORDERED):
+            for fn in rot(FUNCS):
                 check_call(part, "bases", fn, kind, seq, v)
                 n += 1
     for seq in itertools.permutations(S):
         for kind in UNORDERED:
-            for fn in FUNCS:
+            for fn in rot(FUNCS):
                 check_call(part, "bases", fn, kind, seq, v)
                 n += 1
     # the class-level wrappers (Av rejects the empty basis and the empty permutation: C02)
@@ -232,7 +250,7 @@ def shard_bases(shard):
     part = Partial()
     for S in BASES[lo:hi]:
         check_base_full(part, S)
-    if hi > lo:
+    if hi > lo and lo % 4000 == 0:
         S = BASES[hi - 1]
         part.sample({"sub": "bases", "basis": S, "reference (finite, poly, right, top)": F.verdicts(S),
                      "sequences": len(F.sequences(S))}, cap=1)
@@ -254,7 +272,7 @@ def shard_pairs(shard):
             v = F.verdicts(S)
             n = 0
             for seq, kind in ((S, "list"), (S[::-1], "iter")):
-                for fn in FUNCS:
+                for fn in rot(FUNCS):
                     check_call(part, "pairs", fn, kind, seq, v)
                     n += 1
             part.add(n, 1 if hinge(S, v) else 0)
@@ -272,7 +290,7 @@ def shard_subsets(shard):
         v = F.verdicts(S)
         n = 0
         for seq, kind in ((S, "list"), (S[::-1], "gen")):
-            for fn in FUNCS:
+            for fn in rot(FUNCS):
                 check_call(part, "subsets", fn, kind, seq, v)
                 n += 1
         part.add(n, 1 if (len(S) >= 4 and hinge(S, v)) else 0)
@@ -340,7 +358,7 @@ def shard_enum(shard):
             continue
         counts = [PROFILES.count(S, n) for n in range(N + 1)]
         check_enum(part, S, counts, N)
-    if hi > lo and BASES[hi - 1]:
+    if hi > lo and BASES[hi - 1] and lo % 3000 == 0:
         S = BASES[hi - 1]
         if all(len(p) for p in S):
             part.sample({"sub": "enum", "basis": S, "counts": [PROFILES.count(S, n) for n in range(N + 1)],
@@ -446,7 +464,7 @@ def cli_fresh(cmd, arg):
     code = ("import sys; sys.path.insert(0, %r); sys.argv = ['permtools', %r, %r]; "
             "from permuta.cli import main; main()" % (REPO, cmd, arg))
     res = subprocess.run([sys.executable, "-B", "-c", code], capture_output=True, text=True,
-                         timeout=120, cwd=VERIF)
+                         timeout=1800, cwd=VERIF)
     if res.returncode != 0:
         return "exception: exit %d: %s" % (res.returncode, res.stderr[-400:])
     return res.stdout
@@ -492,7 +510,6 @@ def _key(k):
 
 
 def freeze(x):
-    import collections
     if isinstance(x, dict):
         try:
             return tuple(sorted([(_key(k), freeze(v)) for k, v in x.items()]))
@@ -512,49 +529,46 @@ def freeze(x):
 
 
 _SLOTS = None
+_MUTABLE = (list, dict, set, collections.deque)
+_SCALAR = (int, float, str, bool, bytes, tuple, frozenset, type(None))
 
 
-def _state_containers():
-    """(key, object) for every mutable container bound at module level or as a class attribute in
-    the three modules, and every lru_cache-like callable (has cache_clear).  The names are found
-    once; the objects are looked up at every use (a container may be re-bound)."""
+def _slots():
+    """(key, owner, attribute name) of everything in the three modules that can hold state between
+    calls: mutable containers and plain values bound at module level or as class attributes, and
+    lru_cache-like callables (they have cache_clear).  The names are found once, after import;
+    the objects are looked up at every use (an attribute may be re-bound by the code)."""
     global _SLOTS
     if _SLOTS is None:
         lib()
-        _SLOTS = _scan_state_slots()
-    out = []
-    for key, owner, attr in _SLOTS:
-        v = vars(owner).get(attr)
-        if isinstance(v, (staticmethod, classmethod)):
-            v = v.__func__
-        if v is not None:
-            out.append((key, v))
-    return out
-
-
-def _scan_state_slots():
-    import collections
-    mutable = (list, dict, set, collections.deque)
-    out = []
-    for name in MODS:
-        mod = sys.modules.get(name)
-        if mod is None:
-            continue
-        for k, v in sorted(vars(mod).items()):
-            if k.startswith("__"):
+        out = []
+        for name in MODS:
+            mod = sys.modules.get(name)
+            if mod is None:
                 continue
-            if isinstance(v, mutable):
-                out.append(((name, k), mod, k))
-            elif hasattr(v, "cache_clear") and getattr(v, "__module__", None) == name:
-                out.append(((name, k), mod, k))
-            elif isinstance(v, type) and getattr(v, "__module__", None) == name:
-                for ck, cv in sorted(vars(v).items()):
-                    if ck.startswith("__"):
-                        continue
-                    raw = cv.__func__ if isinstance(cv, (staticmethod, classmethod)) else cv
-                    if isinstance(cv, mutable) or hasattr(raw, "cache_clear"):
-                        out.append(((name, v.__name__ + "." + ck), v, ck))
-    return out
+            for k, v in sorted(vars(mod).items()):
+                if k.startswith("__"):
+                    continue
+                if isinstance(v, _MUTABLE) or isinstance(v, _SCALAR) or (
+                        hasattr(v, "cache_clear") and getattr(v, "__module__", None) == name):
+                    out.append(((name, k), mod, k))
+                elif isinstance(v, type) and getattr(v, "__module__", None) == name \
+                        and not issubclass(v, enum.Enum):
+                    for ck, cv in sorted(vars(v).items()):
+                        if ck.startswith("__"):
+                            continue
+                        raw = cv.__func__ if isinstance(cv, (staticmethod, classmethod)) else cv
+                        if isinstance(cv, _MUTABLE) or isinstance(cv, _SCALAR) or hasattr(raw, "cache_clear"):
+                            out.append(((name, v.__name__ + "." + ck), v, ck))
+        _SLOTS = out
+    return _SLOTS
+
+
+def _get(owner, attr):
+    v = vars(owner).get(attr)
+    if isinstance(v, (staticmethod, classmethod)):
+        v = v.__func__
+    return v
 
 
 _PRISTINE = None
@@ -563,28 +577,31 @@ _PRISTINE = None
 def snapshot_pristine():
     """Taken once, right after import and before any call into the three modules."""
     global _PRISTINE
-    lib()
     if _PRISTINE is None:
-        _PRISTINE = {key: copy.copy(obj) for key, obj in _state_containers()
-                     if not hasattr(obj, "cache_clear")}
+        _PRISTINE = {}
+        for key, owner, attr in _slots():
+            v = _get(owner, attr)
+            if isinstance(v, _MUTABLE):
+                _PRISTINE[key] = copy.copy(v)
+            elif not hasattr(v, "cache_clear"):
+                _PRISTINE[key] = v
 
 
 def reset_state():
     L = lib()
-    for key, obj in _state_containers():
-        if hasattr(obj, "cache_clear"):
-            obj.cache_clear()
-            continue
-        init = _PRISTINE.get(key) if _PRISTINE else None
-        obj.clear()
-        if init:
-            if isinstance(obj, dict):
-                obj.update(init)
-            elif isinstance(obj, set):
-                obj.update(init)
-            else:
-                obj.extend(init)
-    L["Av"]._CLASS_CACHE.clear() if hasattr(L["Av"], "_CLASS_CACHE") else None
+    for key, owner, attr in _slots():
+        v = _get(owner, attr)
+        if hasattr(v, "cache_clear"):
+            v.cache_clear()
+        elif isinstance(v, _MUTABLE) and isinstance(_PRISTINE.get(key), type(v)):
+            init = _PRISTINE[key]
+            v.clear()
+            if init:
+                (v.extend if isinstance(v, (list, collections.deque)) else v.update)(init)
+        elif key in _PRISTINE and v is not _PRISTINE[key]:
+            setattr(owner, attr, copy.copy(_PRISTINE[key]))
+    if hasattr(L["Av"], "_CLASS_CACHE"):
+        L["Av"]._CLASS_CACHE.clear()
     Perm = L["Perm"]
     if hasattr(Perm, "_to_standard") and hasattr(Perm._to_standard, "cache_clear"):
         Perm._to_standard.cache_clear()
@@ -593,13 +610,14 @@ def reset_state():
 def canonical_state():
     L = lib()
     out = []
-    for key, obj in _state_containers():
-        if hasattr(obj, "cache_clear"):
-            out.append((key, "lru", obj.cache_info().currsize))
+    for key, owner, attr in _slots():
+        v = _get(owner, attr)
+        if hasattr(v, "cache_clear"):
+            out.append((key, "lru", v.cache_info().currsize))
         else:
-            out.append((key, freeze(obj)))
+            out.append((key, freeze(v)))
     cc = getattr(L["Av"], "_CLASS_CACHE", {})
-    out.append(("Av._CLASS_CACHE", tuple(sorted(repr(k) for k in cc))))
+    out.append(("Av._CLASS_CACHE", tuple(sorted([repr(k) for k in cc]))))
     return tuple(out)
 
 
@@ -641,7 +659,7 @@ class HistoryModel:
         if hist:
             fn, bi, kind = hist[-1]
             exp = expected(fn, self.exp[bi])
-            if obs[-1] is not exp:
+            if differs(obs[-1], exp):
                 viols.append({"op": [fn, bi, kind], "basis": self.bases[bi], "expected": exp,
                               "got": obs[-1]})
         return canon, viols
@@ -711,7 +729,7 @@ def fresh_observations(bases, hist):
             "from mc.checks import c13; c13._fresh_main()" % (REPO, VERIF))
     payload = json.dumps({"bases": bases, "history": hist})
     res = subprocess.run([sys.executable, "-B", "-c", code], input=payload, capture_output=True,
-                         text=True, timeout=300, cwd=VERIF)
+                         text=True, timeout=1800, cwd=VERIF)
     if res.returncode != 0:
         return "fresh interpreter failed: " + res.stderr[-600:]
     return json.loads(res.stdout.strip().splitlines()[-1])
@@ -733,7 +751,8 @@ def check_fresh(part, bases, hist):
     here, _ = run_history(bases, hist)
     there = fresh_observations([list(map(list, b)) for b in bases], [list(op) for op in hist])
     exp = [expected(fn, F.verdicts(bases[bi])) for fn, bi, kind in hist]
-    if here != there or there != exp:
+    norm = lambda obs: obs if not isinstance(obs, list) else [o if isinstance(o, str) else bool(o) for o in obs]
+    if norm(here) != norm(there) or norm(there) != exp:
         part.violation("fresh", {"bases": bases, "history": [list(op) for op in hist]},
                        {"in_process_after_reset": here, "fresh_interpreter": there, "reference": exp})
 
@@ -766,7 +785,8 @@ def build_bases():
 
 
 def run(ctx, only=None):
-    global CONTEXTS, BASES, PAIRPOOL, SUBPOOL, PROFILES
+    global CONTEXTS, BASES, PAIRPOOL, SUBPOOL, PROFILES, SEED
+    SEED = ctx.seed
 
     def want(name):
         return only is None or name in only
@@ -894,6 +914,10 @@ def run(ctx, only=None):
         ctx.traces += len(shards)
         ctx.bounds["fresh_interpreter"] = "%d histories re-run in a fresh interpreter" % len(shards)
         ctx.section("fresh", histories=len(shards))
+
+
+    # shards are merged in a seed-dependent order: put the simplest case of every sub-check first
+    ctx.viols.sort(key=lambda v: (v["sub"], len(json.dumps(v["case"])), json.dumps(v["case"])))
 
 
 # --------------------------------------------------------------------------------------------
